@@ -65,14 +65,25 @@ def parseRounds (s : String) : Option (List Bytes) :=
     | [_, b] => fromHex b
     | _ => none
 
-/-- one lib-level round with the directory offset fixed; returns the file and the stream that was hashed -/
-def round (dirLoc : Nat) (z s : Bytes) : Res (Bytes × Bytes) :=
-  (digestTar (zipToTar z dirLoc) true).bind fun d => (applyPatch z d s).bind fun g => .ok (g, d.hashed)
+/-- one round through the signer module; returns the file and the stream that was hashed; errors carry the stage -/
+def round (z s : Bytes) : Res (Bytes × Bytes) :=
+  match transform z with
+  | .ok ms => (digestTar ms true).bind fun d => (applyPatch z d s).bind fun g => .ok (g, d.hashed)
+  | .err e => .err s!"transform-{e}"
+  | .panic p => .panic p
+  | .diverge => .diverge
 
-def history (dirLoc : Nat) : Bytes → Bytes → Bool → List Bytes → Res (Bytes × Bool)
+/-- rounds `k, k+1, …`: the file, whether every round hashed the stream `h0`; an error names the round -/
+def history (k : Nat) : Bytes → Option Bytes → Bool → List Bytes → Res (Bytes × Bool)
   | g, _, same, [] => .ok (g, same)
   | g, h0, same, s :: rest =>
-    (round dirLoc g s).bind fun (g', h) => history dirLoc g' h0 (same && h == h0) rest
+    match round g s with
+    | .ok (g', h) =>
+      let ref := h0.getD h
+      history (k + 1) g' (some ref) (same && h == ref) rest
+    | .err e => .err s!"round{k}-{e}"
+    | .panic p => .panic p
+    | .diverge => .diverge
 
 def transformClass (z : Bytes) : String :=
   match transform z with
@@ -106,21 +117,17 @@ def handle : List String → String
   | ["history", zhex, rounds] =>
     match fromHex zhex, parseRounds rounds with
     | some z, some (s1 :: rest) =>
-      match Zip.findDirectory ⟨z, false, 0⟩ with
-      | .ok loc =>
-        if z.length < loc then "err transform-tarsize" else
-        showRes (round loc z s1) fun (g1, h0) =>
-          showRes (history loc g1 h0 true rest) fun (g, same) =>
-            let last := (s1 :: rest).getLast?.getD s1
-            let direct := round loc z last
-            let repl := match direct with
-              | .ok (gd, _) => if gd == g then "replaced" else "not-replaced"
-              | _ => "direct-failed"
-            s!"ok out={toHex g} digests={if same then "same" else "changed"} {repl} t={transformClass g}"
-      | .err e => s!"err transform-{e}"
-      | .panic p => s!"panic {p}"
-      | .diverge => "diverge"
+      showRes (history 1 z none true (s1 :: rest)) fun (g, same) =>
+        let last := (s1 :: rest).getLast?.getD s1
+        let repl := match round z last with
+          | .ok (gd, _) => if gd == g then "replaced" else "not-replaced"
+          | _ => "direct-failed"
+        s!"ok out={toHex g} digests={if same then "same" else "changed"} {repl} t={transformClass g}"
     | _, _ => "bad-op"
+  | ["frame", fhex] =>
+    match fromHex fhex with
+    | some f => s!"ok {frameSize f}"
+    | none => "bad-op"
   | ["verify", fhex, size, _skip, _tab] =>
     match fromHex fhex with
     | some f =>
